@@ -42,27 +42,51 @@ func runC07(c *an.Ctx) {
 	}
 	// (1)
 	{
-		var cmps []ssa.Value
-		var preVals []ssa.Value
-		isNonceCmp := func(v ssa.Value) bool {
-			b, ok := v.(*ssa.BinOp)
-			if !ok || (b.Op != token.LSS && b.Op != token.GTR) {
-				return false
-			}
-			cx, okx := b.X.(*ssa.Call)
-			cy, oky := b.Y.(*ssa.Call)
-			return okx && oky && an.CalleeObj(&cx.Call) != nil && an.CalleeObj(&cx.Call).Name() == "GetNonce" && an.CalleeObj(&cy.Call) != nil && an.CalleeObj(&cy.Call).Name() == "Nonce"
+		// comparisons between the account nonce (GetNonce) and the transaction nonce (Nonce), in any spelling,
+		// normalised to "account nonce <op> transaction nonce"
+		isCallNamed := func(v ssa.Value, name string) bool {
+			k, ok := v.(*ssa.Call)
+			return ok && an.CalleeObj(&k.Call) != nil && an.CalleeObj(&k.Call).Name() == name
 		}
-		// preCheck and the private helpers it is split into
+		type nonceCmp struct {
+			v      ssa.Value
+			fail   an.Abs // outcome of v on a mismatch in the covered direction
+			pass   an.Abs
+			covers string
+		}
+		var cmps []nonceCmp
 		for _, g := range an.InlineReach(pre) {
-			preVals = append(preVals, an.FindValues(g, isNonceCmp)...)
+			for _, v := range an.FindValues(g, func(v ssa.Value) bool { _, isB := v.(*ssa.BinOp); return isB }) {
+				b := v.(*ssa.BinOp)
+				op := b.Op
+				switch {
+				case isCallNamed(b.X, "GetNonce") && isCallNamed(b.Y, "Nonce"):
+				case isCallNamed(b.X, "Nonce") && isCallNamed(b.Y, "GetNonce"):
+					op = mirrorOp[op]
+				default:
+					continue
+				}
+				switch op {
+				case token.LSS:
+					cmps = append(cmps, nonceCmp{v, an.ATrue, an.AFalse, "<"})
+				case token.GEQ:
+					cmps = append(cmps, nonceCmp{v, an.AFalse, an.ATrue, "<"})
+				case token.GTR:
+					cmps = append(cmps, nonceCmp{v, an.ATrue, an.AFalse, ">"})
+				case token.LEQ:
+					cmps = append(cmps, nonceCmp{v, an.AFalse, an.ATrue, ">"})
+				case token.NEQ:
+					cmps = append(cmps, nonceCmp{v, an.ATrue, an.AFalse, "!="})
+				case token.EQL:
+					cmps = append(cmps, nonceCmp{v, an.AFalse, an.ATrue, "!="})
+				}
+			}
 		}
-		ops := map[token.Token]bool{}
-		for _, v := range preVals {
-			cmps = append(cmps, v)
-			ops[v.(*ssa.BinOp).Op] = true
+		covered := map[string]bool{}
+		for _, k := range cmps {
+			covered[k.covers] = true
 		}
-		c.Check(len(cmps) == 2 && ops[token.LSS] && ops[token.GTR], "shape|preCheck|nonce-comparisons", "the account nonce is compared with the transaction nonce in both directions", c.P.Rel(pre.Pos()), fmt.Sprintf("%d comparisons", len(cmps)))
+		c.Check(len(cmps) >= 1 && (covered["!="] || covered["<"] && covered[">"]), "shape|preCheck|nonce-comparisons", "the account nonce is compared with the transaction nonce in both directions", c.P.Rel(pre.Pos()), fmt.Sprintf("%d comparisons, directions %v", len(cmps), covered))
 		extra := map[ssa.Value]an.Abs{}
 		for _, g := range an.InlineReach(pre) {
 			for _, k := range an.Calls(g) {
@@ -71,21 +95,21 @@ func runC07(c *an.Ctx) {
 				}
 			}
 		}
-		for i, cmp := range cmps {
-			other := cmps[1-i%2]
-			if len(cmps) != 2 {
-				other = cmp
-			}
-			g := &an.Guard{Name: "nonce mismatch", FailValue: an.ATrue, MatchValue: func(v ssa.Value) bool { return v == cmp }}
+		for i, k := range cmps {
+			cmp := k.v
+			g := &an.Guard{Name: "nonce mismatch", FailValue: k.fail, MatchValue: func(v ssa.Value) bool { return v == cmp }}
 			ex := map[ssa.Value]an.Abs{}
-			for k, v := range extra {
-				ex[k] = v
+			for kk, v := range extra {
+				ex[kk] = v
 			}
-			if other != cmp {
-				ex[other] = an.AFalse
+			// the other comparisons say "no mismatch in their direction"
+			for j, o := range cmps {
+				if j != i {
+					ex[o.v] = o.pass
+				}
 			}
 			v := an.GuardedX(c.P, pre, []*an.Guard{g}, ex, func(in ssa.Instruction) bool { return isCallTo(in, funcObj(buyGas)) }, false)
-			c.Check(v.Holds && v.ActionSites == 1, fmt.Sprintf("guard|preCheck|nonce-%s-before-buyGas", cmp.(*ssa.BinOp).Op), "a transaction whose nonce differs from the account nonce is rejected before gas is bought", c.P.Rel(cmp.Pos()), v.Witness)
+			c.Check(v.Holds && v.ActionSites == 1, fmt.Sprintf("guard|preCheck|nonce-%s-before-buyGas", k.covers), "a transaction whose nonce differs from the account nonce is rejected before gas is bought", c.P.Rel(cmp.Pos()), v.Witness)
 			// and the return is a failure
 			bad := ""
 			an.RunAllFail(pre, []*an.Guard{g}, ex, false, func(r *an.Result) {
@@ -97,7 +121,7 @@ func runC07(c *an.Ctx) {
 					}
 				}
 			})
-			c.Check(bad == "", fmt.Sprintf("guard|preCheck|nonce-%s-is-error", cmp.(*ssa.BinOp).Op), "a nonce mismatch makes preCheck return an error", c.P.Rel(cmp.Pos()), "non-error return reachable at "+bad)
+			c.Check(bad == "", fmt.Sprintf("guard|preCheck|nonce-%s-is-error", k.covers), "a nonce mismatch makes preCheck return an error", c.P.Rel(cmp.Pos()), "non-error return reachable at "+bad)
 		}
 	}
 	// (2)
